@@ -65,6 +65,8 @@ Definition classified : list (string * site_class) :=
     (* every loaded function code of the main program gets the same new globals array: an update per key, the
        visiting order cannot be observed *)
     ("vm (*VirtualMachine).reloadCode vm.loadedCode #0", CopyByKey);
+    (* the module globals are copied back into the module cache under their own names *)
+    ("vm (*VirtualMachine).resetForNewCode vm.globals #0", CopyByKey);
     ("vm (*VirtualMachine).Clone vm.modules #0", CopyByKey);
     ("vm (*VirtualMachine).applyOptions vm.globals #0", CopyByKey);
     ("vm WithGlobals globals #0", CopyByKey);
